@@ -61,7 +61,7 @@ class MultiTapering(Spectrum):
     """
 
     def __init__(
-        self, data, NW=None, k=None, NFFT=None, e=None, v=None, method="adapt", scale_by_freq=True, sampling=1
+        self, data, NW=None, k=None, NFFT=None, e=None, v=None, method="adapt", scale_by_freq=False, sampling=1
     ):
         super(MultiTapering, self).__init__(data, sampling=sampling, NFFT=NFFT, scale_by_freq=scale_by_freq)
 
@@ -95,6 +95,8 @@ class MultiTapering(Spectrum):
             self.psd = newpsd
         else:
             self.psd = self.Sk
+        if self.scale_by_freq is True:
+            self.scale()
         return self
 
     def __str_title(self):
